@@ -43,6 +43,28 @@ def _helper():
     return _HELPERS[fn]
 
 
+_CREATORS = {}
+CREATOR_IN_HELPER = [False]
+
+
+def _here(f, a, k):
+    return _frames(), f(*a, **k)
+
+
+def _creator():
+    """The function whose line calls plan.call / gather / unpack / registry.add / registry.source: normally defined
+    here, optionally compiled under the helper file's name (the creating line itself lives in the user's helper file)."""
+    fn = HELPER_FILE[0]
+    if fn is None or not CREATOR_IN_HELPER[0]:
+        return _here
+    if fn not in _CREATORS:
+        src = "def _here(f, a, k):\n    return _frames(), f(*a, **k)\n"
+        ns = {"_frames": _frames}
+        exec(compile(src, fn, "exec"), ns)
+        _CREATORS[fn] = ns["_here"]
+    return _CREATORS[fn]
+
+
 def _create(d, thunk):
     """Create a symbolic call at helper-nesting depth d (d < 0: no helper frame at all)."""
     if d < 0:
@@ -99,6 +121,12 @@ def materialise(spec, b):
             else:
                 b.objs[key] = cls(kids)
         return b.objs[key]
+    if k == "M":
+        # ONE list object per label, reused for several calls and mutated in place between them
+        key = ("M", spec[1])
+        lst = b.objs.setdefault(key, [])
+        lst[:] = [materialise(s, b) for s in spec[2]]
+        return lst
     if k == "L":
         return [materialise(s, b) for s in spec[1]]
     if k == "T":
@@ -116,7 +144,7 @@ def _register(b, reg, n):
     node = b.nodes[i]
 
     def thunk():
-        fr, _ = _frames(), reg.add(node, store)
+        fr, _ = _creator()(reg.add, (node, store), {})
         b.frames[("add", i)] = fr
 
     _create(n.get("add_depth", 0), thunk)
@@ -129,7 +157,15 @@ def build(world, with_registry=True, _holder=None):
     b = Built()
     if _holder is not None:
         _holder.append(b)
-    HELPER_FILE[0] = world.get("helper_file")
+    hf = world.get("helper_file")
+    if hf and "<PKG" in hf:
+        # user code living next to the installed package (an add-on package, a script in the same directory)
+        import os
+
+        pkg = os.path.dirname(os.path.abspath(uberjob.__file__))
+        hf = hf.replace("<PKGPARENT>", os.path.dirname(pkg)).replace("<PKG>", pkg)
+    HELPER_FILE[0] = hf
+    CREATOR_IN_HELPER[0] = bool(world.get("creator_in_helper"))
     plan = b.plan = uberjob.Plan()
     any_reg = any(n.get("store") for n in world["nodes"])
     reg = b.registry = uberjob.Registry() if (any_reg and with_registry) else None
@@ -153,7 +189,7 @@ def build(world, with_registry=True, _holder=None):
                 b.supplied[i] = (args, list(kwargs.items()))
 
                 def thunk():
-                    fr, node = _frames(), plan.call(fn, *args, **kwargs)
+                    fr, node = _creator()(plan.call, (fn, *args), kwargs)
                     b.frames[("node", i)] = fr
                     return node
 
@@ -164,7 +200,7 @@ def build(world, with_registry=True, _holder=None):
                 obj = materialise(n["args"][0], b)
 
                 def thunk():
-                    fr, node = _frames(), plan.gather(obj)
+                    fr, node = _creator()(plan.gather, (obj,), {})
                     b.frames[("node", i)] = fr
                     return node
 
@@ -173,7 +209,7 @@ def build(world, with_registry=True, _holder=None):
                 obj = materialise(n["args"][0], b)
 
                 def thunk():
-                    fr, items = _frames(), plan.unpack(obj, n["n"])
+                    fr, items = _creator()(plan.unpack, (obj, n["n"]), {})
                     b.frames[("node", i)] = fr
                     return items
 
@@ -197,7 +233,7 @@ def build(world, with_registry=True, _holder=None):
                 store = b.stores[n["store"]]
 
                 def thunk():
-                    fr, node = _frames(), reg.source(plan, store)
+                    fr, node = _creator()(reg.source, (plan, store), {})
                     b.frames[("node", i)] = fr
                     b.frames[("add", i)] = fr
                     return node
